@@ -535,3 +535,19 @@ Proof.
   fold cd in Hd. rewrite <- Hd at 1.
   rewrite (arb_eval_centre (s_raster s) e (rio_raster _ _ Hok) Harb k). apply Hs.
 Qed.
+
+(* the raster theorem in terms of the stored samples, together with the first / last sums *)
+Theorem add_raster_samples_first_last s mg ms grads g :
+  add_gradients s mg ms grads = OK (P_raster, g) -> RasterInputsOk s grads ->
+  let cd := minl (map g_delay grads) in
+  (exists e, g = GExt e /\ eg_delay e = cd /\
+     forall k, nth k (eg_wf e) 0 == sum_eval (map to_pwl grads) (cd + ctr (s_raster s) k)) /\
+  (exists e, g = GExt e /\
+     eg_first e = sumQ (map g_first (filter (fun g => same_time (g_delay g) cd) grads)) /\
+     eg_last e = sumQ (map g_last (filter (fun g => same_time (g_dur g) (maxl (map g_dur grads))) grads))).
+Proof.
+  intros H Hok cd. split.
+  - exact (add_raster_path_sum_at_centres s mg ms grads g H Hok).
+  - destruct (add_raster_path_sum_at_centres_partial s mg ms grads g H) as (e & E & _ & _ & F & L).
+    exists e. split; [exact E|]. split; [exact F|exact L].
+Qed.
